@@ -217,6 +217,24 @@ def _state_changes_outside_or(ci):
     return bypass
 
 
+def check_add_uid(rep, prog, ci):
+    """A new identity is attached through the key's own `|` (which hands a copy to a live public sibling), not filed directly."""
+    f = ci.methods.get('add_uid')
+    if f is None or len(f.params) < 2:
+        raise AnalysisError('PGPKey.add_uid vanished')
+    me, uid = f.params[0], f.params[1]
+    outs = [s for s in Interp(prog, Scenario(inline=noinline)).run(f) if s.raised is None]
+    if not outs:
+        raise AnalysisError('PGPKey.add_uid never returns')
+    for s in outs:
+        via_or = any(e[0] == 'ior' and e[1] == me and (e[2] == uid or e[2].startswith('(%s | ' % uid)) for e in s.events) or \
+            any(c[0] == '%s.__or__' % me and c[1][:1] and (c[1][0] == uid or c[1][0].startswith('(%s | ' % uid)) for c in s.calls)
+        direct = [c[0] for c in s.calls if c[0].startswith('%s._uids.' % me) and c[0].split('.')[-1] in ('insort', 'append', 'appendleft', 'insert', 'extend')]
+        rep.check(via_or and not direct, 'C07.2', 'PGPKey.add_uid', 'identity attached %s' % ('through |' if via_or else 'directly: %s' % direct),
+                  'a new identity must reach a public twin derived earlier: add_uid attaches it with the key\'s own | (which mirrors to the live sibling)',
+                  where=f.where, expected='%s |= %s' % (me, uid), found=direct or None)
+
+
 def check_or(rep, prog, ci):
     """(c) a key accepts only children of its own kind, unconditionally: on every path of __or__ that files `other` under the
     subkeys, the decisions taken imply  isinstance(other, PGPKey), not other.is_primary, other.is_public == self.is_public."""
@@ -245,6 +263,40 @@ def check_or(rep, prog, ci):
               'also when the addition is mirrored from its sibling', where='%s:%d' % (orf.module.relpath, line),
               expected='isinstance(other, PGPKey) and not other.is_primary and other.is_public == self.is_public',
               found=None if bad is None else _show(bad))
+    # (d) whatever __or__ files into the key is handed on to a live public sibling: a path that files `other` and does not
+    # establish that there is no live sibling / that the call came from the sibling must make the mirror call
+    from rules.C16 import path_relations
+    sibref = ('call', 'isinstance', ('%s._sibling' % me, 'weakref.ref'))
+    fromsib = ('expr', orf.params[2]) if len(orf.params) > 2 else None
+    dead = ('eq', frozenset(('%s._sibling()' % me, 'None')))
+    filed_paths = 0
+    for s in outs:
+        if s.raised is not None:
+            continue
+        filed = [p for p, v, l, _ in s.stores if v == other and (p.startswith('%s._children[' % me) or p == '%s._key' % me)] + \
+                [c[0] for c in s.calls if c[0] in ('%s._signatures.insort' % me, '%s._uids.insort' % me) and c[1][:1] == [other]]
+        if not filed:
+            continue
+        filed_paths += 1
+        rel = path_relations(s)
+        # is there any way to be on this path WITH a live sibling and a call that did not come from it?
+        live_possible = False
+        for assign in assignments([s]):
+            if assign.get(sibref, True) is True and (fromsib is None or assign.get(fromsib, False) is False) and assign.get(dead, False) is False and \
+                    not any(k[0] == 'eq' and '%s._sibling' % me in k[1] and 'None' in k[1] and v is True for k, v in assign.items()) and \
+                    consistent(s, assign):
+                live_possible = True
+                break
+        no_live = not live_possible
+        mirrored = any(c[0].endswith('.__or__') and c[1][:1] == ['copy.copy(%s)' % other] for c in s.calls)
+        rep.check(no_live or mirrored, 'C07.2', 'PGPKey.__or__', 'filed %s under [%s]: %s' % (
+            filed[0], ', '.join('%s=%s' % (str(k)[:50], v) for k, v in list(rel.items())[-3:]), 'handed to the sibling' if mirrored else 'no live sibling' if no_live else 'NOT handed on'),
+                  'everything added to a private key must reach a public twin derived earlier (the live sibling): a path that files the '
+                  'operand returns without handing a copy to the sibling', where='%s:%d' % (orf.module.relpath, orf.node.lineno),
+                  expected='sib.__or__(copy.copy(other), True) on every filing path with a live sibling', found=filed)
+    if not filed_paths:
+        raise AnalysisError('PGPKey.__or__: no path files its operand')
+    check_add_uid(rep, prog, ci)
     # the mirror passes a copy and marks it so that it is not mirrored back
     seen = []
     flag = orf.params[2] if len(orf.params) > 2 else None
